@@ -396,11 +396,12 @@ class TlWorld(HistoryWorld):
             finally:
                 lg.os = old
             if not listed:
-                raise AssertionError('directory seam not reached by TlGenerator.generate')
+                ctx.count('schema-directory-not-listed-by-generate')   # e.g. a cached schema set: the order seam has nothing to decide then
             if not ok:
                 self.V(ctx, 'schema-load-fails', 'generate', 'order-%d' % ctx.cfg['order'], 'loading the bundled schemas raised %r' % (sch,))
                 raise AssertionError('unreachable')
             st.schemas = sch
+            st.unt = dict((k, set(v)) for k, v in getattr(sch, 'untouchables', {}).items())   # OUR user's configuration, as obtained
             st.ref = ref_schema()
             st.extra_ids = set(k[::-1] for k in sch.id_map.keys())
             if ctx.cfg['order'] != ORDERS.index(tuple(sorted(FILES))):
@@ -428,6 +429,9 @@ class TlWorld(HistoryWorld):
             op = self._gen_deep_embedded(st, ctx)
             if op is not None:
                 return op
+        if r > 0.96:
+            return {'op': 'other_user', 'how': rng.choice(['untouchable', 'untouchable', 'auto-off']), 'pick': rng.randrange(1 << 16), 'n': rng.choice([1, 3, 40]),
+                    'regenerate': rng.random() < 0.5}
         name = dom[(ctx.cfg['start'] + st.k) % len(dom)] if rng.random() < 0.85 else rng.choice(dom)
         st.k += 1
         g = Gen(rng, ref, st.extra_ids)
@@ -546,7 +550,7 @@ class TlWorld(HistoryWorld):
         if not isinstance(val, dict) or val.get('@type') != c.name:
             self.V(ctx, 'parse-value-differs', 'deserialize', 'constructor-id', 'a %s frame parsed as %r' % (c.name, type(val)))
             return
-        unt = getattr(sch, 'untouchables', {})
+        unt = st.unt
         for path, ic, iv, iw in done:
             _, kind, owner, fname = valid[path]
             try:
@@ -572,6 +576,28 @@ class TlWorld(HistoryWorld):
             return
         if used != len(wire):
             self.V(ctx, 'parse-consumed', 'deserialize', klass, '%s: parser consumed %r of %d bytes' % (c.name, used, len(wire)))
+
+    def op_other_user(self, st, op, ctx):
+        """Another user of the same process obtains ITS OWN schema set and configures it (more untouchable fields, or no
+        auto-deserialisation at all).  Our user's set - the one it already holds, or a fresh one it asks for afterwards - must
+        behave as before: results do not depend on what others did with their objects."""
+        ref = st.ref
+        ok, other = call(lambda: lg.TlGenerator.with_default_schemas().generate())
+        if not ok:
+            return
+        ctx.fault('another-user-configures-its-own-schema-set/' + op['how'])
+        if op['how'] == 'auto-off':
+            other._auto_deserialize = False
+        else:
+            carriers = [n for n in ref.domain if any(f.type == 'bytes' for f in ref.by_name[n].fields)]
+            for j in range(op['n']):
+                n = carriers[(op['pick'] + 7919 * j) % len(carriers)]
+                other.untouchables.setdefault(n, set()).update(f.name for f in ref.by_name[n].fields if f.type == 'bytes')
+        if op.get('regenerate'):
+            ok, mine = call(lambda: lg.TlGenerator.with_default_schemas().generate())
+            if ok:
+                st.schemas = mine
+                ctx.probe('our-user-asks-for-a-fresh-schema-set-after-another-configured-its-own')
 
     def op_send_embedded(self, st, op, ctx):
         ref, sch = st.ref, st.schemas
@@ -619,12 +645,12 @@ class TlWorld(HistoryWorld):
         for fname, (ic, iv, iw) in inner_vals.items():
             exp_rest.pop(fname, None)
             got = got_rest.pop(fname, None)
-            if isinstance(got, (bytes, bytearray)):
-                okf = bytes(got) == iw
+            if fname in st.unt.get(c.name, ()):
+                okf = isinstance(got, (bytes, bytearray)) and bytes(got) == iw      # declared untouchable by this user's schema set
             elif isinstance(got, dict):
                 okf = got.get('@type') == ic.name and norm(ref, ic.result, got) == norm(ref, ic.result, iv)
             else:
-                okf = False
+                okf = False                                                           # the object must come back as the object
             if not okf:
                 self.V(ctx, 'parse-value-differs', 'deserialize', 'embedded-object', '%s.%s carried a %s object (%d bytes); it came back as %s' % (c.name, fname, ic.name, len(iw), repr(got)[:120]))
                 return
